@@ -51,7 +51,7 @@ def splitSet (sep : String) (s : String) : List String := sortStrings (s.splitOn
 def shapeTags (t : T) : List String :=
   tagIf t.rooted "rooted" ++ tagIf (!t.rooted) "unrooted" ++ tagIf (t.kids.length == 1) "roottip" ++
   tagIf (maxDeg t ≥ 4 || (t.rooted && maxDeg t ≥ 3)) "multif" ++ tagIf (hasSingle t) "single" ++
-  tagIf (t.kids.any fun et => et.2.isLeaf) "tip-at-root" ++ tagIf (rootOk t) "hyp-rootOk"
+  tagIf (maxDeg t ≥ 255) "huge-degree" ++ tagIf (t.kids.any fun et => et.2.isLeaf) "tip-at-root" ++ tagIf (rootOk t) "hyp-rootOk"
 
 def algoStr : Algo → String
   | .deltran => "deltran" | .acctran => "acctran" | .downpass => "downpass" | .none => "none"
